@@ -21,11 +21,13 @@ def run(ctx):
         mc_cyc.run_cyclepoints(ctx, 'C02', 6, 2, [0, 1, 2], [0, 1, 2], which=('find_extrema',))
         extrema_tv.run(ctx, 240, PREFIXES)
         pipeline.run_corpus(ctx, 80, PREFIXES, seed_offset=2)
+        pipeline.run_large(ctx, PREFIXES, 2, 3, 1)          # beyond small scopes: long cycles, long recordings
     else:
         mc_cyc.run_cyclepoints(ctx, 'C02', 7, 2, [0, 1, 2], [0, 1, 2], which=('find_extrema',))
         mc_cyc.run_cyclepoints(ctx, 'C02', 9, 1, [0, 1, 2], [0, 1, 2], which=('find_extrema',))
         extrema_tv.run(ctx, 4000, PREFIXES, max_len=2600)
         pipeline.run_corpus(ctx, 1000, PREFIXES, seed_offset=2, max_len=2600)
+        pipeline.run_large(ctx, PREFIXES, 2, 12, 6)          # beyond small scopes: long cycles, long recordings
 
 
 def replay(ctx, case):
